@@ -50,6 +50,41 @@ func genC06(t *rapid.T) hx.SessionCase {
 	if lit := rapid.SampledFrom([]string{"", "", "", "", "", "***DVD***", "***PS3***"}).Draw(t, "literal-prefix-dir"); lit != "" {
 		tree.Children = append(tree.Children, hx.Dir(lit, hx.File("top.bin", 7, 81), hx.Dir("GAME", hx.File("Y.BIN", 10, 79), hx.Dir("sub", hx.File("z", 3, 80)))))
 	}
+	// links that lead back: to the directory itself, to its parent, to an ancestor further up (cycles for anything
+	// that follows links while walking)
+	if cyc := rapid.IntRange(0, 5).Draw(t, "cyclic-links"); cyc == 0 {
+		var ds []*hx.Node
+		var depth []int
+		tree.Walk(func(rel string, n *hx.Node) {
+			if n.Kind == "dir" && len(ds) < 40 && n.Name != "MANY" {
+				ds = append(ds, n)
+				if rel == "" {
+					depth = append(depth, 0)
+				} else {
+					depth = append(depth, strings.Count(rel, "/")+1)
+				}
+			}
+		})
+		for i, k := 0, rapid.IntRange(1, 2).Draw(t, "ncyc"); i < k; i++ {
+			di := rapid.IntRange(0, len(ds)-1).Draw(t, fmt.Sprintf("cyc-dir%d", i))
+			d := ds[di]
+			// never above the root (links leaving the root are outside the properties by design)
+			tgt := rapid.SampledFrom([]string{".", "..", "../..", "./."}[:1+min(depth[di], 2)]).Draw(t, fmt.Sprintf("cyc-tgt%d", i))
+			if tgt == "../.." && depth[di] < 2 {
+				tgt = "."
+			}
+			name := fmt.Sprintf("back%d", i)
+			dup := false
+			for _, c := range d.Children {
+				if c.Name == name {
+					dup = true
+				}
+			}
+			if !dup {
+				d.Children = append(d.Children, hx.Link(name, tgt))
+			}
+		}
+	}
 	pool := hx.PoolOf(tree)
 	dirs := append([]string{""}, pool.Dirs...)
 	var reqs []hx.Req
